@@ -329,6 +329,16 @@ def gen_ref_set(rng, allow_m1_wrapped=True, small=False):
             for o, (m, a, k, v, ts) in zip(abs_offs, msgs):
                 expected.append((o, m, a, k, v, ts))
             off = abs_offs[-1] + 1
+            if magic == 1 and rng.random() < 0.3:
+                # the very same wrapper bytes once more, further along the log (a producer's retry appended the batch
+                # twice): the inner offsets are relative, so the copy's messages sit at other absolute offsets
+                woff, wbytes = entries[-1]
+                off2 = woff + rel[-1] + rng.choice((1, 1, 2, 50))
+                entries.append((off2, wbytes))
+                for r, (m, a, k, v, ts) in zip(rel, msgs):
+                    expected.append((off2 - rel[-1] + r, m, a, k, v, ts))
+                tags.add("gzip_m1_repeated_batch")
+                off = off2 + 1
         else:  # nested: wrapper(wrapper(messages)) in magic 0, absolute offsets everywhere
             n = rng.randint(1, 3)
             msgs = [(m, 0, k, v, ts) for (m, a, k, v, ts) in gen_logical(rng, 0, n, True)]
